@@ -544,6 +544,15 @@ def scen_varray(cn, ecls, mk, init, L):
                     ref[q][0] = mk(91 + q)
                     bm[i][0] = canon(mk(91 + q))
             chkv(cn, b, bm, "varray.maskedref:%s:write_through" % cn, L=L, mask=mv)
+            # slices and integer indices of the masked reference select through the mask
+            for s2 in (slice(None), slice(None, None, -1), slice(1, None), slice(None, None, 2), slice(-2, None), slice(None, -1), slice(1, None, 2), slice(None, None, -2)):
+                R.cls("varray_maskedref_slice")
+                chkv(cn, ref[s2], [bm[i] for i in sel][s2], "varray.maskedref.getitem(slice):%s:wrong_selection" % cn, L=L, mask=mv, sl=ixr(s2))
+            for q in range(-len(sel), len(sel)):
+                R.ev()
+                got = [canon(ref[q][j]) for j in range(len(ref[q]))]
+                if not same(tuple(got), tuple(bm[sel[q]])):
+                    R.fail("varray.maskedref.getitem(int):%s:wrong_item" % cn, L=L, mask=mv, q=q, got=got, want=bm[sel[q]])
         except Exception as e:
             R.fail("varray.getitem(mask):%s:raised" % cn, L=L, mask=mv, exc=repr(e))
     for wl in (L + 1, max(L - 1, 0)):
